@@ -23,21 +23,24 @@ theorem cond_list (c : Ctx) (a b d : Val) :
   rfl
 
 theorem cond_doc (c : Ctx) (gs : Fields)
-    (h : (dhas "if" gs && dhas "then" gs && dhas "else" gs) = true) :
+    (h : (dhas "if" gs && dhas "then" gs && dhas "else" gs) = true)
+    (hx : gs.any (fun kv => !(["if", "then", "else"].contains kv.1)) = false) :
     eval c (.doc [("$cond", .doc gs)]) =
       (evalAt c "if" gs).bind (fun r =>
         if Spec.toBool r then evalAt c "then" gs else evalAt c "else" gs) := by
   have h1 : classify "$cond" = .conditional := by decide
   have h2 : mode "$cond" (.doc gs) = .shaped := by
     simp [mode, dateOps, datePartOps, wholeOps, unaryArithOps, groupingOps, hasTzKeys]
-  simp [eval, evalDoc, h1, h2, evalOp, h, toBoolOpt_eq]
+  simp only [eval, List.length_singleton, Nat.lt_irrefl, decide_false, Bool.false_and,
+    Bool.false_eq_true, if_false, evalDoc, h1, h2, evalOp, h, hx, Bool.not_true]
+  simp [toBoolOpt_eq]
   rfl
 
-/-- a `$cond` document that lacks one of its three fields is "missing" (the KeyError of
-    `values['if']`), not an error -/
+/-- a `$cond` document that lacks one of its three fields is rejected ("Missing 'else' parameter
+    to $cond"); it used to be "missing", the KeyError of `values['else']` -/
 theorem cond_doc_lacking (c : Ctx) (gs : Fields)
     (h : (dhas "if" gs && dhas "then" gs && dhas "else" gs) = false) :
-    eval c (.doc [("$cond", .doc gs)]) = .ok none := by
+    eval c (.doc [("$cond", .doc gs)]) = .error .opFail := by
   have h1 : classify "$cond" = .conditional := by decide
   have h2 : mode "$cond" (.doc gs) = .shaped := by
     simp [mode, dateOps, datePartOps, wholeOps, unaryArithOps, groupingOps, hasTzKeys]
@@ -45,16 +48,27 @@ theorem cond_doc_lacking (c : Ctx) (gs : Fields)
 
 /-! ### `$ifNull` -/
 
-theorem ifNull_list (c : Ctx) (xs : List Val) :
+theorem ifNull_list (c : Ctx) (xs : List Val) (hlen : 2 ≤ xs.length) :
     eval c (.doc [("$ifNull", .arr xs)]) = evalIfNull c xs := by
   have h1 : classify "$ifNull" = .conditional := by decide
   have h2 : mode "$ifNull" (.arr xs) = .shaped := by
     simp [mode, dateOps, datePartOps, wholeOps, unaryArithOps, groupingOps]
   have h3 : arityErr "$ifNull" xs.length = none := by
-    simp [arityErr, binaryArithOps, comparisonOps]
+    have : ¬ xs.length < 2 := by omega
+    simp [arityErr, binaryArithOps, comparisonOps, this]
   have h4 : listOps.contains "$ifNull" = false := by decide
   have h5 : ¬ ("$ifNull" ∈ listOps) := by decide
   simp [eval, evalDoc, h1, h2, evalOp, h3, h4, h5]
+
+/-- fewer than two operands are rejected -/
+theorem ifNull_short (c : Ctx) (xs : List Val) (hlen : xs.length < 2) :
+    eval c (.doc [("$ifNull", .arr xs)]) = .error .opFail := by
+  have h1 : classify "$ifNull" = .conditional := by decide
+  have h2 : mode "$ifNull" (.arr xs) = .shaped := by
+    simp [mode, dateOps, datePartOps, wholeOps, unaryArithOps, groupingOps]
+  have h3 : arityErr "$ifNull" xs.length = some .opFail := by
+    simp [arityErr, binaryArithOps, comparisonOps, hlen]
+  simp [eval, evalDoc, h1, h2, evalOp, h3]
 
 /-- an operand that is neither null nor missing is the result; the later ones are not parsed -/
 theorem ifNull_first (c : Ctx) (x y : Val) (r : List Val) (v : Val)
@@ -81,7 +95,7 @@ theorem ifNull_last (c : Ctx) (f : Val) : evalIfNull c [f] = eval c f := by
 theorem ifNull_two (c : Ctx) (x f : Val) (rx : Option Val) (hx : eval c x = .ok rx) :
     eval c (.doc [("$ifNull", .arr [x, f])]) =
       if Spec.nullish rx then eval c f else .ok rx := by
-  rw [ifNull_list]
+  rw [ifNull_list c [x, f] (by simp)]
   cases hn : Spec.nullish rx
   · cases rx with
     | none => simp [Spec.nullish] at hn
